@@ -197,7 +197,12 @@ structure CTA.Inv (s : CTA) : Prop where
 theorem CTA.inv_init (cond : Int → Bool) : (CTA.init cond).Inv := by
   constructor <;> simp [CTA.init, wsumA]
 
-theorem CTA.inv_step (a b : CTA) (h : a.Inv) (hs : CTAStep a b) : b.Inv := by
+/-- the condition is the same in every state of a run -/
+theorem CTA.cond_step {flag : Bool} {a b : CTA} (hs : CTAStep flag a b) : b.cond = a.cond := by
+  cases hs <;> rfl
+
+theorem CTA.inv_step {flag : Bool} (a b : CTA) (hf : flag = true ∨ a.cond 0 = false) (h : a.Inv) (hs : CTAStep flag a b) :
+    b.Inv := by
   cases hs with
   | set i v hne =>
     refine ⟨by simp only [wsumA_map_enqueue]; exact h.counter, ?_, ?_, ?_⟩
@@ -249,12 +254,24 @@ theorem CTA.inv_step (a b : CTA) (h : a.Inv) (hs : CTAStep a b) : b.Inv := by
       simp only [List.mem_append, List.mem_singleton] at hm
       rcases hm with hm | rfl
       · exact h.live m hm hl hq
-      · simp at hq
+      · -- registered silently: the input holds the zero value and the subscription has no flag, so the condition
+        -- must be false for the zero value
+        simp only at hq ⊢
+        split at hq
+        · simp at hq
+        · next hc =>
+          simp only [Bool.or_eq_true, bne_iff_ne, ne_eq, not_or, Decidable.not_not, Bool.not_eq_true] at hc
+          rcases hf with hf | hf
+          · simp [hf] at hc
+          · rw [hc.1, hf]
     · intro m hm hl w rest hq
       simp only [List.mem_append, List.mem_singleton] at hm
       rcases hm with hm | rfl
       · exact h.last m hm hl w rest hq
-      · simp at hq; obtain ⟨rfl, rfl⟩ := hq; rfl
+      · simp only at hq
+        split at hq
+        · simp at hq; obtain ⟨rfl, rfl⟩ := hq; rfl
+        · simp at hq
   | deliver j m v rest hj hl hq =>
     have hm := List.mem_of_getElem? hj
     refine ⟨?_, ?_, ?_, ?_⟩
@@ -296,10 +313,16 @@ theorem CTA.inv_step (a b : CTA) (h : a.Inv) (hs : CTAStep a b) : b.Inv := by
       · exact h.last m' hm'' hl' w rest' hq'
       · simp at hl'
 
-theorem CTA.inv_reach (a b : CTA) (h : a.Inv) (hr : CTAReach a b) : b.Inv := by
+theorem CTA.cond_reach {flag : Bool} {a b : CTA} (hr : CTAReach flag a b) : b.cond = a.cond := by
+  induction hr with
+  | refl => rfl
+  | tail _ hs ih => rw [CTA.cond_step hs, ih]
+
+theorem CTA.inv_reach {flag : Bool} (a b : CTA) (hf : flag = true ∨ a.cond 0 = false) (h : a.Inv)
+    (hr : CTAReach flag a b) : b.Inv := by
   induction hr with
   | refl => exact h
-  | tail _ hs ih => exact CTA.inv_step _ _ ih hs
+  | tail hr' hs ih => exact CTA.inv_step _ _ (by rw [CTA.cond_reach hr']; exact hf) ih hs
 
 theorem wsumA_eq_countP (mons : List AMon) (p : AMon → Bool) (h : ∀ m ∈ mons, m.was = p m) :
     wsumA mons = (mons.countP p : Nat) := by
